@@ -335,6 +335,36 @@ def build_templates():
     TT["unyt_array(x)"] = T(lambda A, p: unyt.unyt_array(A["x"]), ("x",), cat="copy")
     TT["unyt_array(x,u)"] = T(lambda A, p: unyt.unyt_array(A["x"], p["u"]), ("x",), cat="copy", params=("u",))
     TT["unyt_array([x,y])"] = T(lambda A, p: unyt.unyt_array([A["x"], A["y"]]), ("x", "y"), cat="copy")
+    # every handler in the live table, called as f(x) and f(x, y): most signatures accept that, the rest raise
+    # TypeError before doing anything - either way the operands must come out untouched.  (Handlers that are
+    # in place by contract have their own templates below; savetxt writes a file.)
+    from unyt._array_functions import _HANDLED_FUNCTIONS
+
+    inplace_by_contract = {"copyto", "fill_diagonal", "place", "put", "put_along_axis", "putmask", "savetxt"}
+    for f in sorted(_HANDLED_FUNCTIONS, key=lambda f: (f.__module__ or "", f.__name__)):
+        if f.__name__ in inplace_by_contract:
+            continue
+        qn = (f.__module__ or "numpy").replace("numpy", "np") + "." + f.__name__
+        try:
+            names = [q.name for q in __import__("inspect").signature(f).parameters.values()]
+        except (TypeError, ValueError):
+            continue
+        first = names[0] if names else ""
+        second = names[1] if len(names) > 1 else ""
+        if first in ("arrays", "tup", "operands"):
+            TT["afseq:" + qn] = T((lambda f: lambda A, p: f([A["x"], A["y"]]))(f), ("x", "y"), cat="func")
+            continue
+        if first in ("a", "a1", "arr", "ary", "x", "m", "p", "y", "array", "element", "ar1", "x1", "start", "sample"):
+            TT["af1:" + qn] = T((lambda f: lambda A, p: f(A["x"]))(f), ("x",), cat="func")
+            # a second positional argument only where it is data (an array given as max_line_width, axis, n,
+            # bins ... is not a call anybody makes, and NumPy's own code may then work on it in place)
+            if second in ("b", "a2", "v", "xp", "ar2", "test_elements", "x2", "stop", "x", "y", "to_end", "a_min"):
+                TT["af2:" + qn] = T((lambda f: lambda A, p: f(A["x"], A["y"]))(f), ("x", "y"), cat="func")
+    TT["np.put_along_axis"] = T(lambda A, p: np.put_along_axis(A["x"], np.array([0]), A["y"], 0), ("x", "y"), "x", None, "ifunc")
+    TT["np.select"] = T(lambda A, p: np.select([np.asarray(A["x"]) > 0], [A["x"]], A["y"]), ("x", "y"), cat="func")
+    TT["np.choose_out"] = T(lambda A, p: np.choose([0, 1, 0][: A["x"].size] if A["x"].ndim else 0, [A["x"], A["y"]], out=A["o"]),
+                            ("x", "y", "o"), "o", None, "func_out")
+    TT["np.interp"] = T(lambda A, p: np.interp(A["x"], A["y"], A["y"]), ("x", "y"), cat="func")
     # in-place array functions / item assignment
     TT["np.copyto"] = T(lambda A, p: np.copyto(A["x"], A["y"]), ("x", "y"), "x", None, "ifunc")
     TT["np.fill_diagonal"] = T(lambda A, p: np.fill_diagonal(A["x"], A["y"]), ("x", "y"), "x", None, "ifunc")
@@ -523,7 +553,8 @@ class Gen18:
         p = {}
         base_n = len(w.ents)
         shape = (3,)
-        if name in ("np.fill_diagonal",):
+        if name in ("np.fill_diagonal",) or (name.startswith(("af1:", "af2:")) and (
+                ".linalg." in name or name.endswith((".tril", ".triu", ".fft2", ".ifft2", ".rfft2", ".irfft2", ".histogram2d")))):
             shape = (2, 2)
         dtype = r.choice(self.cfg["dtypes"])
         if t.twin and t.cat in ("iconv", "iequiv") and r.random() < 0.3:
